@@ -54,7 +54,7 @@ func init() {
 			"Distinct payload = distinct sign-bytes as produced by the real Vote/Proposal.SignBytes of the object after the call (millisecond timestamps; validator index/address and proposal type are not part of the sign-bytes).",
 			"A signature counts as released when the Signature field of the request object is non-nil after the call, whatever the call returned (error or panic included).",
 		},
-		QuickRuns: 4000, QuickBudget: 55 * time.Second,
+		QuickRuns: 3000, QuickBudget: 50 * time.Second,
 		ThoroughRuns: 12000, ThoroughBudget: 15 * time.Minute,
 		RunsPerProcess: 400,
 		Run:            run,
